@@ -357,11 +357,16 @@ def C13_past_terminator(case, params):
     return bool(C13.trailing_cards(case["text"]))
 
 
-def C13_read_cycle(case, params):
-    """a read card whose target (transitively) reads a file already being read, with no numbered object on the cycle"""
+def C13_check_read_cycle(case, params):
+    """check mode: a read card whose target (transitively) reads a file already being read: the MalformedInputError
+    raised by the reading queue is not reported as a warning"""
     f = _f(case)
-    if f.get("kind") != "hang":
+    if f.get("kind") != "check-raises" or f.get("cls") != "MalformedInputError" or f.get("func") != "read_data":
         return False
+    return _read_graph_has_cycle(case)
+
+
+def _read_graph_has_cycle(case):
     files = dict(case.get("files") or {})
     files[case.get("name", "case.i")] = case["text"]
     seen = set()
